@@ -40,7 +40,9 @@ META = {
   level='proof',
   text="Proof over control flow with the parser module havocked (returns text / None / JSON null / raises any of 4 exception kinds incl. "
        "ImportError and argument-less exceptions): built-in json/cbor/custom formats, plugins disabled, parse(), parseCustom, Default, "
-       "UserData/ExtUserData.toJSON. Built-in text format: every payload of up to 4 characters symbolically; longer texts bounded.",
+       "UserData/ExtUserData.toJSON. Built-in text format: payloads of ANY length by a loop invariant over the characters "
+       "(LINES/LINE recursion: split at newlines, characters outside ' '..'~' replaced by '.'), plus every payload of up to 4 "
+       "characters with exact white-space stripping.",
   note="Recovery of the bytes from a hex dump is the C13 lemma. The whole-section pipeline with the shipped parser modules is a bounded companion.",
   assumptions=[PLUGIN_A]),
  'C05': dict(
@@ -99,8 +101,8 @@ META = {
        "with a file: it is never touched); deletePELFromPELId removes at most the first name containing the id; every other mode emits no "
        "mutating event; parseAndWriteOutput writes only <out>/<file>.<eid>.json and removes only its input, only with --clean; main runs "
        "exactly one action per invocation.",
-  note="Deletion functions and every mode's fs frame are proved for directories of any size (invariants); only main's own -j loop is unrolled "
-       "(0 or 2 files). os.walk/open/remove are assumed contracts (effects on the trace); plugins assumed fs-pure (A3). Tree snapshots through "
+  note="Deletion functions, every mode's fs frame and main's own --json loop (which files are converted, where to, --clean passed "
+       "through) are proved for directories of any size (invariants). os.walk/open/remove are assumed contracts (effects on the trace); plugins assumed fs-pure (A3). Tree snapshots through "
        "the real CLI are a bounded companion.",
   assumptions=[FS_A, PLUGIN_A]),
  'C12': dict(
@@ -169,7 +171,9 @@ META = {
   text="Proof: descriptions with present/absent/partial chip data, signature slicing at the documented byte positions (python and -O), SRC and "
        "user-data plugins, signature list (invariant), register dump for any number of chips/registers and every data size 1..255 (nested "
        "invariants, 16 shards), scratch registers.",
-  note="Chip-data content: two sample environments; callout FFDC is a bounded unit.",
+  note="Chip-data content: two sample environments. Callout FFDC for any payload: the text given to json.loads is exactly the payload "
+       "without trailing NULs (quantified characterisation of bytes.rstrip), the result json.dumps of that value under its key - JSON "
+       "parsing itself is an assumed function (json.loads/json.dumps); concrete documents in a bounded unit.",
   assumptions=[PLUGIN_A]),
 }
 
